@@ -69,6 +69,14 @@ CHECKS = {
    text="Three generated-input mechanisms: (1) the history generators of six other checks re-run over a lock implementation that records any acquisition requested while the lock is held; (2) dedicated histories whose parent Announces carry a version number encoded redundantly in every data set field, with parent/time-properties snapshots taken at every outermost exclusive release (exactly the states another thread can observe) and required to be homogeneous; (3) schedule injection with real threads over an RwLock-based lock that parks set_clock_quality / set_slave_only after each of their lock releases while BMCA rounds run, with a serialisability oracle (final state must equal one of the two serial orders) and homogeneous observer snapshots.",
    note="Interleavings are owned at lock-release granularity only (sound because all shared state is behind the lock); the OS scheduler is not otherwise controlled. BMCA cannot overlap port handlers by type state.",
    technique="property-based testing with a lock-discipline monitor, release-point snapshot invariants and deterministic schedule injection with a serialisability oracle"),
+ "C19": dict(level="exploration", design="DESIGN.md §4 C19",
+   text="Generated instance states reached in simulation plus directly generated observable-state JSON over the full field ranges, checked in three stages: (1) the ObservableInstanceState assembled as the daemon's run() does against the configuration, the Announce a master port emits (an independent view of the live data sets), the port's behaviour and the slave port's filter estimates; (2) byte-identical and field-equal serde_json round trip; (3) black box: the statime-metrics-exporter binary built from /repo receives the JSON on a Unix socket and every sample of its HTTP response is parsed by an independent HTTP + OpenMetrics text parser and compared with the value derived from the state under the meaning the family's own metadata states.",
+   note="Stage 3 uses wall-clock socket time-outs (time-out = exit 2). uptime_seconds values are chosen exactly representable (serde_json's default float parser is not round-trip exact).",
+   technique="property-based testing: differential (state vs Announce), round-trip, and black-box differential against an independent exposition-format parser"),
+ "C20": dict(level="fault_enumeration", design="DESIGN.md §4 C20",
+   text="Fault enumeration against the real exporter subprocess: every sequence of length 1 and 2 over the alphabet of (client behaviour x observation-socket behaviour) pairs is executed exhaustively (reduced alphabet in quick, full in thorough), sequences of length 3-4 are sampled; each is followed by a probe request that must receive a complete 200 response within a deadline, well-formed requests inside the sequence must get 200/500, and on a miss the process is classified as exited / spinning (CPU time from /proc) / hanging.",
+   note="Only clients that go away are generated. Needs loopback TCP and Unix sockets.",
+   technique="fault-sequence enumeration (exhaustive to length 2, sampled beyond) with a liveness probe oracle"),
 }
 NA_REASON = "check not built yet in this round (design in DESIGN.md §4); will be claimed once its check exists"
 
@@ -103,7 +111,7 @@ manifest = {
  },
  "engines": [
    {"name": "harness", "path": "/verif/harness", "serves_properties": sorted(CHECKS.keys()),
-    "kind_free_text": "Rust binary `vcheck`: choice-sequence (Hypothesis-style) property-testing engine with shrinking and replay files, exhaustive lattices, reference codec/BMCA/models, host model of statime-linux's action handling"},
+    "kind_free_text": "Rust binary `vcheck` (incl. the exporter driver that spawns statime-metrics-exporter built from /repo): choice-sequence (Hypothesis-style) property-testing engine with shrinking and replay files, exhaustive lattices, reference codec/BMCA/models, host model of statime-linux's action handling"},
  ],
  "checks": checks,
  "not_applicable": na,
